@@ -194,9 +194,6 @@ func c13One(t *core.T, kn, method, msg, relay, epq string, opt int, key string) 
 		return
 	}
 	sd := md.SPSSODescriptors[0]
-	if sd.AuthnRequestsSigned == nil || !*sd.AuthnRequestsSigned {
-		t.Fail(fk("metadata-authnrequestssigned"), "signing is configured but metadata says AuthnRequestsSigned=%v", sd.AuthnRequestsSigned)
-	}
 	var cert *x509.Certificate
 	for _, kd := range sd.KeyDescriptors {
 		if kd.Use == "signing" && len(kd.KeyInfo.X509Data.X509Certificates) > 0 {
